@@ -177,6 +177,10 @@ type c07Cur struct {
 	arrivals int
 	release  chan struct{}
 	pairRecs []c07Rec
+	// gate mode: several clients in flight at once, each upstream answers every level alike; traces per question name
+	gateMode  bool
+	gateAns   map[string]c07Ans
+	gateTrace map[string][]string
 }
 
 var c07Current *c07Cur
@@ -198,6 +202,23 @@ func (f *c07Fwd) ForwardDNS(ctx context.Context, data []byte) (*dnsmessage.Msg, 
 		m := new(dnsmessage.Msg)
 		m.SetReply(&q)
 		m.Answer = c07RRs(q.Question[0].Name, cur.prefRecs(q.Question[0].Qtype))
+		return m, nil
+	}
+	if cur.gateMode {
+		if uerr != nil || len(q.Question) != 1 {
+			return nil, errC07Forward
+		}
+		name := q.Question[0].Name
+		cur.mu.Lock()
+		cur.gateTrace[name] = append(cur.gateTrace[name], f.up)
+		a, ok := cur.gateAns[f.up]
+		cur.mu.Unlock()
+		if !ok || a.fail {
+			return nil, errC07Forward
+		}
+		m := new(dnsmessage.Msg)
+		m.SetReply(&q)
+		m.Answer = c07RRs(name, a.recs)
 		return m, nil
 	}
 	if cur.pair {
@@ -458,12 +479,20 @@ func c07DumpCache(c *DnsController) string {
 }
 
 func c07NewController(t *testing.T, routing *componentdns.Dns, optimistic bool, prefer ...int) *DnsController {
+	ctrl, err := NewDnsController(routing, c07CtrlOption(optimistic, prefer...))
+	if err != nil {
+		t.Fatalf("NewDnsController: %v", err)
+	}
+	return ctrl
+}
+
+func c07CtrlOption(optimistic bool, prefer ...int) *DnsControllerOption {
 	log := c07Quiet()
 	ipPrefer := 0
 	if len(prefer) > 0 {
 		ipPrefer = prefer[0]
 	}
-	ctrl, err := NewDnsController(routing, &DnsControllerOption{
+	return &DnsControllerOption{
 		IpVersionPrefer:     ipPrefer,
 		OptimisticCache:     optimistic,
 		OptimisticCacheTtl:  60,
@@ -485,11 +514,7 @@ func c07NewController(t *testing.T, routing *componentdns.Dns, optimistic bool, 
 			}
 			return &dialArgument{l4proto: l4, ipversion: consts.IpVersionStr_4, bestTarget: netip.AddrPortFrom(ip, upstream.Port)}, nil
 		},
-	})
-	if err != nil {
-		t.Fatalf("NewDnsController: %v", err)
 	}
-	return ctrl
 }
 
 // the query types for which cacheKey has a pre-computed string (white-box), with their neighbours
@@ -743,7 +768,56 @@ func TestVerifC07Controller(t *testing.T) {
 		}
 		var earlier []asked
 		var staleEntries []c07Stale
+		// a reload in the middle of the scenario: the controller adopts a new generation's rule lists through the
+		// production hand-over (ReuseForReload: same store — response cache, forwarders — new runtime); the
+		// upstream list stays, so cache scopes keep their meaning
+		reloadAt := -1
+		if r.Chance(0.3) {
+			reloadAt = r.Range(1, perCfg-1)
+		}
 		for ai := 0; ai < perCfg; ai++ {
+			if ai == reloadAt {
+				reqRules = c07GenRules(r, nUp, false, maxRules, stats)
+				if nUp > 0 && r.Chance(0.3) {
+					respRules = c07BouncyResp(r, nUp, stats)
+				} else {
+					respRules = c07GenRules(r, nUp, true, maxRules, stats)
+				}
+				reqFb = c07Out(r, nUp, false)
+				respFb = c07Out(r, nUp, true)
+				text2 := c07ConfigText(nUp, urls, reqRules, reqFb, respRules, respFb)
+				reOp := fmt.Sprintf("recfg %d %s %s %s %s", nUp, reqFb, c07RenderOp(reqRules), respFb, c07RenderOp(respRules))
+				var routing2 *componentdns.Dns
+				dnsCfg2, err := c07ParseConfig(text2)
+				if err == nil {
+					routing2, err = componentdns.New(dnsCfg2, &componentdns.NewOption{
+						Logger:                  c07Quiet(),
+						UpstreamReadyCallback:   func(*componentdns.Upstream) error { return nil },
+						UpstreamResolverNetwork: "udp",
+						UpstreamHostResolver:    c07ResolveHost,
+					})
+				}
+				if err != nil {
+					st.Emit(reOp, "builderr") // the new generation is refused: the old one keeps running
+					stats.Inc("reload.refused")
+				} else {
+					next, rerr := ctrl.ReuseForReload(c07CtrlOption(optimistic, ipPrefer), routing2)
+					if rerr != nil || next == nil {
+						t.Fatalf("ReuseForReload: %v", rerr)
+					}
+					if r.Chance(0.7) {
+						ctrl = next // the replacement generation's facade
+						stats.Inc("reload.asks-through-new-facade")
+					} else {
+						stats.Inc("reload.asks-through-old-facade") // the retiring generation's facade follows the new runtime too
+					}
+					st.Emit(reOp, "ok")
+					stats.Inc("op.recfg")
+					for _, n := range c07Names(r, reqRules, 4, stats) {
+						names[r.Intn(len(names))] = n // some names aimed at the new rules
+					}
+				}
+			}
 			// names as they come off the wire: fully qualified, any case
 			name := strings.TrimRight(names[ai], ".") + "."
 			if strings.Contains(name, "..") || strings.HasPrefix(name, ".") && name != "." {
@@ -1079,6 +1153,148 @@ func TestVerifC07Controller(t *testing.T) {
 			st.Emit(fmt.Sprintf("pair n:%s %d %s %s", name, qt, c07Rx(name), c07RecsTok(recs)),
 				fmt.Sprintf("asked=%s r1=%s r2=%s", strings.Join(cur.trace, ","), replies[0], replies[1]))
 			stats.Inc("op.pair")
+		}
+		_ = ctrl.Close()
+	}
+
+	// ---- a question arrives while the FIRST INITIALISATION of its upstream is still inside the upstream-ready
+	// callback (production: ControlPlane.dnsUpstreamReadyCallback blocks until the control plane is ready).
+	// Client 1 is held inside the callback; client 2 (another name, same upstream) is started and the harness
+	// waits until it has either entered the callback too or been answered — no timing involved; then the gate
+	// opens.  Both answers come from the configured upstream and must be routed by the upstream(...) rules.
+	nGate := 30
+	if VThorough() {
+		nGate = 300
+	}
+	for gi := 0; gi < VEnvInt("C07_NGATE", nGate); gi++ {
+		nUp := r.Range(1, 3)
+		k := r.Intn(nUp)
+		uk := fmt.Sprintf("u%d", k)
+		lead := c07Rule{out: []string{"reject", "reject", "accept", fmt.Sprintf("u%d", r.Intn(nUp))}[r.Intn(4)]}
+		lead.funcs = append(lead.funcs, c07Func{name: "upstream", params: []c07Param{{"", uk, uk}}})
+		respRules := append([]c07Rule{lead}, c07GenRules(r, nUp, true, 2, stats)...)
+		respFb := []string{"accept", "reject"}[r.Intn(2)]
+		var urls []string
+		for i := 0; i < nUp; i++ {
+			urls = append(urls, fmt.Sprintf("udp://10.0.0.%d:53", i+1))
+		}
+		text := c07ConfigText(nUp, urls, nil, uk, respRules, respFb)
+		dnsCfg, err := c07ParseConfig(text)
+		if err != nil {
+			t.Fatalf("gate config: %v\n%s", err, text)
+		}
+		defs, err := c07MakeUpDefs(urls)
+		if err != nil {
+			t.Fatalf("gate upstream definitions: %v", err)
+		}
+		c07Ups = defs
+		entered := make(chan struct{}, 64)
+		gate := make(chan struct{})
+		routing, err := componentdns.New(dnsCfg, &componentdns.NewOption{Logger: c07Quiet(),
+			UpstreamReadyCallback: func(*componentdns.Upstream) error {
+				entered <- struct{}{}
+				<-gate
+				return nil
+			}})
+		cfgOp := fmt.Sprintf("cfg %d %s - %s %s urls:%s dead: opt:0", nUp, uk, respFb, c07RenderOp(respRules), strings.Join(urls, ","))
+		if err != nil {
+			st.Emit(cfgOp, "builderr")
+			continue
+		}
+		st.Emit(cfgOp, "ok")
+		ctrl := c07NewController(t, routing, false)
+		cur := &c07Cur{gateMode: true, gateAns: map[string]c07Ans{}, gateTrace: map[string][]string{}}
+		var ansToks []string
+		for i := 0; i < nUp; i++ {
+			a := c07Ans{qv: "E", recs: c07GenRecs(r, stats)}
+			if r.Chance(0.1) {
+				a = c07Ans{fail: true}
+			}
+			cur.gateAns[fmt.Sprintf("u%d", i)] = a
+			for d := 0; d <= MaxDnsLookupDepth; d++ {
+				ansToks = append(ansToks, fmt.Sprintf("%d.u%d=%s", d, i, a.tok()))
+			}
+		}
+		c07Current = cur
+		names := []string{"gate-one." + strings.ToLower(c07Domain(r)) + ".", "gate-two." + strings.ToLower(c07Domain(r)) + "."}
+		qt := []uint16{1, 28, 16}[r.Intn(3)]
+		type gres struct {
+			ci    int
+			reply string
+			errc  string
+		}
+		done := make(chan gres, 4)
+		ask := func(ci int) {
+			msg := new(dnsmessage.Msg)
+			msg.Id = uint16(300 + ci)
+			msg.Question = []dnsmessage.Question{{Name: names[ci], Qtype: qt, Qclass: dnsmessage.ClassINET}}
+			req := &udpRequest{realSrc: netip.MustParseAddrPort(fmt.Sprintf("192.0.2.%d:41000", 10+ci)),
+				realDst: netip.MustParseAddrPort("9.9.9.1:53"), routingResult: &bpfRoutingResult{}}
+			w := &c07Writer{}
+			ctx, cancel := context.WithTimeout(context.Background(), 300*time.Second)
+			defer cancel()
+			err := ctrl.HandleWithResponseWriter_(ctx, msg, req, w)
+			switch {
+			case err != nil:
+				done <- gres{ci, "err", c07ErrClass(err)}
+			case w.msg == nil:
+				done <- gres{ci, "none", "-"}
+			default:
+				rc := "ok"
+				if w.msg.Rcode != dnsmessage.RcodeSuccess {
+					rc = "fail"
+				}
+				done <- gres{ci, "ans:" + rc + ":" + c07RecsOfRRs(w.msg.Answer), "-"}
+			}
+		}
+		results := map[int]gres{}
+		waitOne := func(what string) bool { // true: a caller entered the ready callback; false: a client finished
+			select {
+			case <-entered:
+				return true
+			case g := <-done:
+				results[g.ci] = g
+				return false
+			case <-time.After(120 * time.Second):
+				t.Fatalf("C07-GATE-HARNESS: %s: neither inside the upstream-ready callback nor answered within 120 s", what)
+			}
+			return false
+		}
+		go ask(0)
+		if waitOne("client 1") {
+			stats.Inc("gate.first-client-held-in-ready-callback")
+		}
+		go ask(1)
+		if waitOne("client 2") {
+			stats.Inc("gate.second-client-initialises-on-its-own")
+		} else {
+			stats.Inc("gate.a-client-answered-while-the-gate-was-closed")
+		}
+		close(gate)
+		for len(results) < 2 {
+			select {
+			case g := <-done:
+				results[g.ci] = g
+			case <-time.After(120 * time.Second):
+				t.Fatalf("C07-GATE-HARNESS: clients did not finish within 120 s after the gate opened")
+			}
+		}
+		dump := c07DumpCache(ctrl)
+		for ci := 0; ci < 2; ci++ {
+			// the model threads the cache: after the first line it holds client 1's entries only
+			var mine []string
+			for _, e := range strings.Split(dump, ";") {
+				if e != "" && (ci == 1 || strings.HasPrefix(e, names[0])) {
+					mine = append(mine, e)
+				}
+			}
+			cur.mu.Lock()
+			trace := strings.Join(cur.gateTrace[names[ci]], ",")
+			cur.mu.Unlock()
+			op := fmt.Sprintf("ask 1 0 q n:%s %d %s ip:0 cl:1 seed: ans:%s", names[ci], qt, c07Rx(names[ci]), strings.Join(ansToks, ","))
+			st.Emit(op, fmt.Sprintf("trace=%s reply=%s | cache=%s err=%s", trace, results[ci].reply, strings.Join(mine, ";"), results[ci].errc))
+			stats.Inc("op.ask")
+			stats.Inc("op.gate-ask")
 		}
 		_ = ctrl.Close()
 	}
